@@ -91,13 +91,35 @@ def _cast_names(fn: ast.FunctionDef) -> list[str]:
 	return names
 
 
-def _quotes(fn: ast.FunctionDef) -> list[str]:
+def _str_list(fn: ast.FunctionDef, name: str, width: int) -> list[str]:
 	for n in ast.walk(fn):
-		if isinstance(n, ast.Assign) and len(n.targets) == 1 and isinstance(n.targets[0], ast.Name) and n.targets[0].id == 'quotes' and isinstance(n.value, ast.List):
+		if isinstance(n, ast.Assign) and len(n.targets) == 1 and isinstance(n.targets[0], ast.Name) and n.targets[0].id == name and isinstance(n.value, ast.List):
 			vals = [e.value for e in n.value.elts if isinstance(e, ast.Constant) and isinstance(e.value, str)]
-			if len(vals) == len(n.value.elts) and all(len(v) == 1 for v in vals):
+			if len(vals) == len(n.value.elts) and all(len(v) == width for v in vals):
 				return vals
-	raise Unrecognised('_allow_string: `quotes = [...]` of one-character strings not found')
+	raise Unrecognised(f'{fn.name}: `{name} = [...]` of {width}-character strings not found')
+
+
+def _long_quote_test(fn: ast.FunctionDef) -> int:
+	"""`if len(string) >= N and string[:3] in long_quotes and string[-3:] == string[:3]: return False` -> N."""
+	for n in fn.body:
+		if isinstance(n, ast.If) and isinstance(n.test, ast.BoolOp) and isinstance(n.test.op, ast.And) and len(n.test.values) == 3 \
+				and len(n.body) == 1 and isinstance(n.body[0], ast.Return) and isinstance(n.body[0].value, ast.Constant) and n.body[0].value.value is False:
+			a, b, c = n.test.values
+			if ast.unparse(b) == 'string[:3] in long_quotes' and ast.unparse(c) == 'string[-3:] == string[:3]' and isinstance(a, ast.Compare) \
+					and ast.unparse(a.left) == 'len(string)' and len(a.ops) == 1 and isinstance(a.ops[0], ast.GtE) and isinstance(a.comparators[0], ast.Constant) and isinstance(a.comparators[0].value, int):
+				return a.comparators[0].value
+	raise Unrecognised('_allow_string: the triple-quote test has not the expected shape')
+
+
+def _cast_arity(fn: ast.FunctionDef) -> int:
+	"""`if len(arguments) != N: raise Errors.OperationNotAllowed(...)` before the cast ladder -> N."""
+	for n in fn.body:
+		if isinstance(n, ast.If) and isinstance(n.test, ast.Compare) and ast.unparse(n.test.left) == 'len(arguments)' and len(n.test.ops) == 1 and isinstance(n.test.ops[0], ast.NotEq) \
+				and isinstance(n.test.comparators[0], ast.Constant) and isinstance(n.test.comparators[0].value, int) \
+				and len(n.body) == 1 and isinstance(n.body[0], ast.Raise) and 'OperationNotAllowed' in ast.unparse(n.body[0]):
+			return n.test.comparators[0].value
+	raise Unrecognised('on_func_call: `if len(arguments) != N: raise Errors.OperationNotAllowed` not found')
 
 
 def read_tables() -> dict[str, Any]:
@@ -123,7 +145,10 @@ def read_tables() -> dict[str, Any]:
 		'bit': _ladder(fns['_bitwise']),
 		'chain_handlers': sorted(n for n, f in fns.items() if n.startswith('on_') and _is_op_bin_each(f)),
 		'casts': _cast_names(fns['on_func_call']),
-		'quotes': _quotes(fns['_allow_string']),
+		'quotes': _str_list(fns['_allow_string'], 'quotes', 1),
+		'long_quotes': _str_list(fns['_allow_string'], 'long_quotes', 3),
+		'long_quote_min_len': _long_quote_test(fns['_allow_string']),
+		'cast_arity': _cast_arity(fns['on_func_call']),
 		'handlers': sorted(n for n in fns if n.startswith('on_')),
 	}
 
@@ -170,6 +195,13 @@ def castNames : List (List Char) := {strs(t['casts'])}
 /-- `quotes` of `_allow_string` -/
 def quoteChars : List Char := [{', '.join(_lean_str(q)[1:-1] for q in t['quotes'])}]
 
+/-- `long_quotes` of `_allow_string` and the minimal length of a token it tests against them -/
+def longQuotes : List (List Char) := {strs(t['long_quotes'])}
+def longQuoteMinLen : Nat := {t['long_quote_min_len']}
+
+/-- `on_func_call`: `if len(arguments) != castArity: raise Errors.OperationNotAllowed` -/
+def castArity : Nat := {t['cast_arity']}
+
 /-- every `on_*` handler the class registers -/
 def handlers : List (List Char) := {strs(t['handlers'])}
 
@@ -183,7 +215,7 @@ def generate() -> list[dict[str, Any]]:
 	return [{
 		'file': os.path.relpath(TARGET, os.path.dirname(GENERATED_DIR)),
 		'source': SOURCE,
-		'entries': len(t['arithmetic']) + len(t['bitwise']) + len(t['allow']) + len(t['calc']) + len(t['bit']) + len(t['chain_handlers']) + len(t['casts']) + len(t['quotes']) + len(t['handlers']),
+		'entries': len(t['arithmetic']) + len(t['bitwise']) + len(t['allow']) + len(t['calc']) + len(t['bit']) + len(t['chain_handlers']) + len(t['casts']) + len(t['quotes']) + len(t['long_quotes']) + 2 + len(t['handlers']),
 		'changed': changed,
 		'tables': {k: v for k, v in t.items()},
 	}]
